@@ -1,5 +1,6 @@
 (* Descriptions of bitstream/vc2.py written as [prog] terms of Model/SerDes.v (property C06).
-   Only the data-unit header and the padding / auxiliary-data payload so far. NO proofs here. *)
+   The data-unit header with the padding / auxiliary-data payload, sequence_header, fragment_header,
+   hq_slice, ld_slice.  NO proofs here. *)
 From Coq Require Import ZArith List Bool.
 From VC2 Require Import Model.SerDes.
 Import ListNotations.
@@ -23,3 +24,95 @@ Definition unit_prog (clamp : bool) : prog unit :=
   Op (OSubEnter 11) (fun _ => Op (OSetType 2) (fun _ =>
   Op (OBytes 6 (let n := val_int npo - PARSE_INFO_HEADER_BYTES in if clamp then Z.max 0 n else n)) (fun _ =>
   Op OSubLeave (fun _ => Ret tt))))))))))))).
+
+(* ------------------------------------------------------------------------------------------
+   More of bitstream/vc2.py as program terms.  Target and context-type numbers are shared with
+   tools/harness/C06.py (NAMES / TYPES); geometry (how many coefficients a slice holds) is a
+   parameter: it is computed by the real slice_left/right/top/bottom in the harness.
+   ------------------------------------------------------------------------------------------ *)
+Fixpoint pseq {A} (p : prog unit) (q : prog A) : prog A :=
+  match p with
+  | Ret _ => q
+  | Op o k => Op o (fun r => pseq (k r) q)
+  end.
+Fixpoint prep (n : nat) (body : prog unit) : prog unit :=
+  match n with
+  | O => Ret tt
+  | S m => pseq body (prep m body)
+  end.
+Definition val_bool (v : val) : bool := match v with VB b => b | VI z => negb (z =? 0) | _ => false end.
+(* with serdes.subcontext(t): <the @context_type(ty) function body> *)
+Definition psub (t ty : Z) (body : prog unit) : prog unit :=
+  Op (OSubEnter t) (fun _ => Op (OSetType ty) (fun _ => pseq body (Op OSubLeave (fun _ => Ret tt)))).
+Definition puint (t : Z) : prog unit := Op (OUint t) (fun _ => Ret tt).
+(* flag = serdes.bool(t); if flag: body *)
+Definition pflag (t : Z) (body : prog unit) : prog unit :=
+  Op (OBool t) (fun b => if val_bool b then body else Ret tt).
+(* index = serdes.uint(120); <not-in-spec substitution of an unknown index by some non-zero preset>;
+   if index == 0: body        -- the substitution never changes whether index == 0 *)
+Definition pindex (body_custom : prog unit) : prog unit :=
+  Op (OUint 120) (fun i => if val_int i =? 0 then body_custom else Ret tt).
+
+Definition pseqs (l : list (prog unit)) : prog unit := fold_right pseq (Ret tt) l.
+
+(* (11.1) sequence_header, called at the top of a fresh (de)serialiser *)
+Definition sequence_header_prog : prog unit :=
+  Op (OSetType 10) (fun _ => pseqs [
+    psub 100 11 (pseqs [puint 101; puint 102; puint 103; puint 104]);
+    puint 105;
+    psub 106 12 (pseqs [
+      psub 108 13 (pflag 109 (pseqs [puint 110; puint 111]));
+      psub 112 14 (pflag 113 (puint 114));
+      psub 115 15 (pflag 116 (puint 117));
+      psub 118 16 (pflag 119 (pindex (pseqs [puint 121; puint 122])));
+      psub 123 17 (pflag 124 (pindex (pseqs [puint 125; puint 126])));
+      psub 127 18 (pflag 128 (pseqs [puint 129; puint 130; puint 131; puint 132]));
+      psub 133 19 (pflag 134 (pindex (pseqs [puint 135; puint 136; puint 137; puint 138])));
+      psub 139 20 (pflag 140 (pindex (pseqs [
+        psub 141 21 (pflag 142 (puint 120));
+        psub 143 22 (pflag 144 (puint 120));
+        psub 145 23 (pflag 146 (puint 120))])))]);
+    puint 107]).
+
+(* (14.2) fragment_header *)
+Definition fragment_header_prog : prog unit :=
+  Op (OSetType 32) (fun _ =>
+  Op (OUintLit 170 4) (fun _ => Op (OUintLit 171 2) (fun _ =>
+  Op (OUintLit 172 2) (fun n =>
+  if val_int n =? 0 then Ret tt
+  else Op (OUintLit 173 2) (fun _ => Op (OUintLit 174 2) (fun _ => Ret tt)))))).
+
+(* one component of an HQ slice: length byte, bounded block of 8*scaler*length bits holding n
+   coefficients, the unused bits of the block *)
+Definition hq_component (t_len t_coeffs t_pad scaler : Z) (n : nat) : prog unit :=
+  Op (OUintLit t_len 1) (fun len =>
+  Op (OBBegin (8 * (scaler * val_int len))) (fun _ =>
+  pseq (prep n (Op (OSint t_coeffs) (fun _ => Ret tt)))
+  (Op (OBEnd t_pad) (fun _ => Ret tt)))).
+
+(* (13.5.4) hq_slice(serdes, state, sx, sy) with state["slice_prefix_bytes"] = prefix,
+   state["slice_size_scaler"] = scaler and ny/nc1/nc2 coefficients per component *)
+Definition pop (o : op) : prog unit := Op o (fun _ => Ret tt).
+Definition hq_slice_prog (prefix scaler : Z) (ny nc1 nc2 : nat) (sx sy : Z) : prog unit :=
+  pseqs [pop (OSetType 30); pop (OBytes 150 prefix); pop (OUintLit 151 1);
+         pop (OComputed 152 (VI sx)); pop (OComputed 153 (VI sy));
+         pop (ODeclList 154); pop (ODeclList 155); pop (ODeclList 156);
+         hq_component 157 154 160 scaler ny;
+         hq_component 158 155 161 scaler nc1;
+         hq_component 159 156 162 scaler nc2].
+
+(* (13.5.3.1) ld_slice with slice_bytes(state, sx, sy) = sb, length_bits = intlog2(8*sb - 7) (given),
+   ny luma and nc colour-difference coefficient PAIRS; the length is clamped ("not in spec") *)
+Definition ld_slice_prog (sb length_bits : Z) (ny nc : nat) (sx sy : Z) : prog unit :=
+  pseq (pop (OSetType 31)) (pseq (pop (ONBits 151 7))
+  (Op (ONBits 157 length_bits) (fun ylen =>
+   let left := 8 * sb - 7 - length_bits in
+   let y := if left <? val_int ylen then left else val_int ylen in
+   pseqs [pop (OComputed 152 (VI sx)); pop (OComputed 153 (VI sy));
+          pop (ODeclList 154); pop (ODeclList 163);
+          pop (OBBegin y);
+          prep ny (pop (OSint 154));
+          pop (OBEnd 160);
+          pop (OBBegin (left - y));
+          prep nc (pseq (pop (OSint 163)) (pop (OSint 163)));
+          pop (OBEnd 164)]))).
